@@ -23,7 +23,7 @@ func init() {
 			"(e) a nil error is returned only with a non-nil selected value; (f) 'best' replaces its candidate only when the new score is greater (or equal), taking value, score and provider from the same response; " +
 			"(g) 'majority' succeeds only when the winning count >= threshold (exactly that relation) and counts each response under its own root; (h) what 'first' returns was received from the result channel; " +
 			"(i) one request goroutine per configured provider (range over the provider map without early exit) and the expected-response count is len of that map. " +
-			"Added with the third seeding round: (k) a received response is passed over in favour of the kept candidate only where a candidate exists (the first acceptable response is adopted); (l) no 64-bit accessor of an arbitrary-precision amount in the scoring code. Added with the fourth seeding round: (m) no strategy fan-out runs under an errgroup context; (n) the head-nearness bonus is withheld only on a failed lookup or head > attestation slot; (o) tallies of the majority strategies are per call. Added with the fifth seeding round: (p) a fan-out worker sends at most one message per request on its result/error channels (no path from one send to another), (q) whether a proposal's fee recipient is examined depends on the proposal's version only. NOT decided: optimality under latency (which responses have arrived by the decision point), score arithmetic, map-order tie-breaks, wall-clock bounds.",
+			"Added with the third seeding round: (k) a received response is passed over in favour of the kept candidate only where a candidate exists (the first acceptable response is adopted); (l) no 64-bit accessor of an arbitrary-precision amount in the scoring code. Added with the fourth seeding round: (m) no strategy fan-out runs under an errgroup context; (n) the head-nearness bonus is withheld only on a failed lookup or head > attestation slot; (o) tallies of the majority strategies are per call. Added with the fifth seeding round: (p) a fan-out worker sends at most one message per request on its result/error channels (no path from one send to another), (q) whether a proposal's fee recipient is examined depends on the proposal's version only. Added with the sixth seeding round and the false-alarm regression: (r) in a selection loop a new leader (tally raised) re-assigns every loop-carried best* variable; (s) the context under which the requests are issued is not cancelled before the last collector; (x) no integer ratio converted to floating point afterwards. NOT decided: optimality under latency (which responses have arrived by the decision point), score arithmetic, map-order tie-breaks, wall-clock bounds.",
 		Technique: "template conformance over all strategy packages on SSA and typed AST: context provenance through parameters/closures, select-arm analysis, cancel pairing by path queries, guard/edge-deletion with relation sets, loop-exit analysis",
 		Rule:      "one obligation per select/receive (a,b), per cancel function (c), per forwarding send (d), per success return (e,h), per score comparison (f), per threshold test (g), per fan-out loop (i)",
 	})
@@ -122,6 +122,83 @@ func runC07(p *core.Prog, r *core.Report, tier string) {
 		r.Undecide("C07.anchor", "strategies", "", "no strategy functions found")
 		return
 	}
+
+	// ---- (s) the requests run under the context that is cancelled last (shared with C09.k) ----
+	nReqCtx := checkRequestContextOutlivesCollectors(p, r, ds, "C07.s", fns)
+	r.Floor("C07.s cancel calls of request contexts", nReqCtx, 1)
+
+	// ---- (r) a new leader replaces everything that describes the leader: in a selection loop, the variables that are
+	// carried round the loop under names starting with "best" are all assigned on every path through the branch that
+	// raises the best count (a tie-break datum left over from the former leader decides later ties wrongly) ----
+	nLead := 0
+	for _, f := range fns {
+		loops := naturalLoops(f)
+		for header, body := range loops {
+			var bests []*ssa.Phi
+			for _, in := range header.Instrs {
+				phi, ok := in.(*ssa.Phi)
+				if !ok {
+					break
+				}
+				if strings.HasPrefix(phi.Comment, "best") {
+					bests = append(bests, phi)
+				}
+			}
+			if len(bests) < 2 {
+				continue
+			}
+			// the counting variable and the branch that raises it: `count > bestCount`
+			for _, cnt := range bests {
+				// the tally: a plain integer (slots and the like are named types and serve to break ties)
+				if b, ok := cnt.Type().(*types.Basic); !ok || b.Info()&types.IsInteger == 0 {
+					continue
+				}
+				for blk := range body {
+					iff, ok := blk.Instrs[len(blk.Instrs)-1].(*ssa.If)
+					if !ok {
+						continue
+					}
+					cmp, ok := iff.Cond.(*ssa.BinOp)
+					if !ok || !((cmp.Op == token.GTR && cmp.Y == ssa.Value(cnt)) || (cmp.Op == token.LSS && cmp.X == ssa.Value(cnt))) {
+						continue
+					}
+					lead := blk.Succs[0]
+					for _, other := range bests {
+						if other == cnt {
+							continue
+						}
+						nLead++
+						// can control go from the leader branch round to the header with `other` unchanged?
+						unchanged := false
+						for i, e := range other.Edges {
+							pred := header.Preds[i]
+							if !body[pred] {
+								continue
+							}
+							var froms []*ssa.BasicBlock
+							if e == ssa.Value(other) {
+								froms = append(froms, pred) // handed round unchanged on this edge
+							} else if inner, isPhi := e.(*ssa.Phi); isPhi {
+								for k, ie := range inner.Edges {
+									if ie == ssa.Value(other) {
+										froms = append(froms, inner.Block().Preds[k])
+									}
+								}
+							}
+							for _, from := range froms {
+								if lead == from || (core.PathQuery{Fn: f, From: lead.Instrs[0], Target: func(x ssa.Instruction) bool { return x.Block() == from }, Avoid: func(x ssa.Instruction) bool { return x.Block() == header }}).Find() != nil {
+									unchanged = true
+								}
+							}
+						}
+						r.Check(!unchanged, "C07.r", fmt.Sprintf("%s|new-leader-sets|%s", core.FnKey(f), other.Comment), p.Pos(core.IfPos(iff)), "a new leader also sets "+other.Comment,
+							"when a response takes the lead ("+cnt.Comment+" raised) "+other.Comment+" can keep the value recorded for the former leader: a later tie is then broken against stale data and the wrong response is returned")
+					}
+				}
+			}
+		}
+	}
+	r.Floor("C07.r leader data in selection loops", nLead, 1)
 
 	// ---- (a) every wait can time out ----
 	nSel, nRecv := 0, 0
